@@ -5,16 +5,15 @@
    wire transfers; unary handlers return [f request] for an arbitrary function [f] on payload tokens
    ([pol_c01 f]).
 
-   FULL statement of the pairing clause:
-     forall f ls s c k b, lrun (pol_c01 f) init ls = Some s -> nth_error (calls (cl s)) c = Some k ->
-       k_unary k = true -> In (EvUnaryRet c (UOk b)) (log (cl s)) -> b = f (k_payload k).
-   It is proved below from one fact about the server model alone that is stated (Proofs/SysC01.v,
-   [server_fact_reply_origin]) but not yet proved: hence the name [C01_pairing_partial] and the explicit
-   premise. Everything else in the chain is proved: the client's part (work package cl), the wires, the
-   projections of system runs onto component runs. *)
+   The pairing clause [C01_pairing] is proved at full strength by composition: the client's part (work
+   package cl: a success carries the body of an envelope read with the call's id; a unary call writes only
+   its own request), the wires (nothing lost, duplicated, reordered, altered, fabricated), the projections
+   of system runs onto component runs, and the server's part (Proofs/SysFacts.v [srv_reply_origin]: every
+   body-carrying frame the server writes is the reply of a handler started for a frame read from the
+   transport with the same id). *)
 From Coq Require Import List ZArith Bool.
 Import ListNotations.
-From Goat Require Import Model.Client Model.Server Model.Sys Proofs.SysLog Proofs.SysProofs Proofs.SysC01.
+From Goat Require Import Model.Client Model.Server Model.Sys Proofs.SysLog Proofs.SysProofs Proofs.SysFacts Proofs.SysC01.
 Open Scope Z_scope.
 
 (* every run of the system is a run of the client model and a run of the server model *)
@@ -47,13 +46,23 @@ Theorem C01_request_exact : forall ls s c k e,
 Proof. exact unary_writes. Qed.
 Print Assumptions C01_request_exact.
 
-(* pairing: every successful unary call returned f (its own payload) *)
-Theorem C01_pairing_partial : forall f, server_fact_reply_origin f ->
-  forall ls s c k b, Sys.lrun (pol_c01 f) Sys.init ls = Some s ->
+(* the server: a frame with a body that it writes is the reply of a handler started for a frame it read
+   with the same id; a unary handler's reply is f of that frame's body (whatever the peer sends) *)
+Theorem C01_server_reply_origin : forall f ls v fr b,
+  SysFacts.srun_pol (pol_c01 f) Server.init ls = Some v ->
+  In (SvWrite fr) (Server.log v) -> ebody (f_env fr) = Some b ->
+  exists h k, nth_error (hs v) h = Some k /\ fid (h_req k) = fid fr /\ In (SvRead (h_req k)) (Server.log v) /\
+              (if h_unary k then b = f (body_tok (h_req k)) else has_body (h_req k) = false).
+Proof. exact SysFacts.srv_reply_origin. Qed.
+Print Assumptions C01_server_reply_origin.
+
+(* pairing: every successful unary call returned f (its own payload): for every f, every number of calls and
+   streams, every interleaving *)
+Theorem C01_pairing : forall f ls s c k b, Sys.lrun (pol_c01 f) Sys.init ls = Some s ->
     nth_error (calls (cl s)) c = Some k -> k_unary k = true ->
     In (EvUnaryRet c (UOk b)) (Client.log (cl s)) -> b = f (k_payload k).
-Proof. exact SysC01.C01_pairing_partial. Qed.
-Print Assumptions C01_pairing_partial.
+Proof. exact SysC01.C01_pairing. Qed.
+Print Assumptions C01_pairing.
 
 (* the hypotheses are met by concrete, non-trivial runs: three calls one after the other, and three calls
    in flight at once; each returns mix3 of its own payload, and the final state is quiescent *)
